@@ -7,7 +7,7 @@ COMMON_ASSUMPTIONS = {
     'trusted_base': [
         'pyvc: the home-made AST->z3 VC generator in /verif/pyvc (guarded by canaries, native cross-check and mutation smoke test; not itself verified)',
         'z3 5.1.0 (python API) as primary solver; /usr/bin/z3 4.8.12 and cvc5 1.0.3 accepted for `unsat` only',
-        'Lean 4.33.0 + Mathlib for bridge lemmas. For reverse, remove_epsilon_transitions, is_empty and the subset construction (_to_deterministic_internal with eclose=True) the Lean hypothesis is GENERATED from the contract object (tools/render_lean.py -> bridge/Link.lean, adapters proved in Lean); for the other bridged functions (product, complement, accepts, reversal of grammars, counting facts) the correspondence between the z3 formula and the Lean statement is by inspection',
+        'Lean 4.33.0 + Mathlib for bridge lemmas. For reverse, remove_epsilon_transitions, is_empty, the subset construction (_to_deterministic_internal with eclose=True) and the product construction (get_intersection) the Lean hypothesis is GENERATED from the contract object (tools/render_lean.py -> bridge/Link.lean, adapters proved in Lean); for the other bridged statements (complement, accepts, reversal of grammars, counting facts) the correspondence between the z3 formula and the Lean statement is by inspection',
         'closure-induction schema instances named in contracts (sound for least fixpoints; theorems on the Lean side)',
     ],
     'assumptions': [
